@@ -6,6 +6,10 @@ Tr == ndJsonDeserialize("trace.ndjson")
 VARIABLES l, bad, cnt
 ClauseIds == {"C19_a", "C19_b", "C19_c", "C19_d", "C19_e"}
 
+\* violations are collected up to a cap, but the first violation of every clause is always kept: a flood of violations of one
+\* clause (another property's) must not hide the only violation of another
+KeepBad(b, v) == Len(b) < 300 \/ \E c \in v : \A i \in DOMAIN b : c \notin b[i].ids
+
 TInit == l = 1 /\ bad = <<>> /\ cnt = [c \in ClauseIds |-> 0]
 
 Step ==
@@ -17,7 +21,7 @@ Step ==
                 \cup (IF ~(ev.decok /\ ev.stdok) THEN {"C19_c"} ELSE {})
                 \cup (IF ~ev.errok THEN {"C19_d"} ELSE {})
                 \cup (IF ev.panic THEN {"C19_e"} ELSE {})
-       IN /\ bad' = IF v # {} /\ Len(bad) < 300 THEN Append(bad, [l |-> l, sid |-> ev.kind, i |-> ev.id, ids |-> v, tags |-> {}]) ELSE bad
+       IN /\ bad' = IF v # {} /\ KeepBad(bad, v) THEN Append(bad, [l |-> l, sid |-> ev.kind, i |-> ev.id, ids |-> v, tags |-> {}]) ELSE bad
           /\ cnt' = [c \in ClauseIds |-> cnt[c] + 1]
   /\ l' = l + 1
 
